@@ -103,7 +103,9 @@ type scn struct {
 	ParentMS   int64 `json:"parent_ms"`   // deadline offset
 	CancelStep int   `json:"cancel_step"` // scheduling step
 	Reuse      bool  `json:"reuse"`
-	Debug      bool  `json:"debug"` // Runtime.Debug: request and response are dumped through net/http/httputil
+	Debug      bool  `json:"debug"`        // Runtime.Debug: request and response are dumped through net/http/httputil
+	SrcErrKind int   `json:"src_err_kind"` // the error value a failing source returns: 0 private, 1 io.ErrUnexpectedEOF, 2 wraps io.EOF
+	SrcErrOnce bool  `json:"src_err_once"` // the failing source reports its error once, io.EOF afterwards
 	AdvanceIn  int   `json:"advance_in"`
 
 	T struct {
@@ -204,6 +206,8 @@ func generate(t *kernel.Tape) *scn {
 	s.CancelStep = t.Choose(41, "cancel-step") // 0: the caller's context is already cancelled when Submit is called
 	s.Reuse = t.Bool(2, "reuse")
 	s.Debug = t.Bool(8, "debug-mode")
+	s.SrcErrKind = t.Weighted("source-error-value", 3, 1, 1)
+	s.SrcErrOnce = t.Bool(3, "source-error-reported-once")
 	s.AdvanceIn = []int{0, 6, 12, 3}[t.Choose(4, "advance-in")]
 	// transport/body shape (no faults yet)
 	s.T.Pull = t.Choose(4, "pull")
@@ -314,12 +318,24 @@ func content(n int, salt byte) []byte {
 	return b
 }
 
+// srcErr is the error value a failing upload source returns.
+func (w *world) srcErr(what string) error {
+	switch w.s.SrcErrKind {
+	case 1:
+		return io.ErrUnexpectedEOF
+	case 2:
+		return fmt.Errorf("%s: %w", what, io.EOF)
+	}
+	return &kernel.InjectedError{What: what}
+}
+
 func (w *world) mkFile(i int, f fileScn) *simhttp.UploadFile {
 	st := kernel.NewStream(w.env, fmt.Sprintf("file%d", i), content(f.Len, byte(i)))
 	st.Tag = "source"
 	if f.ErrAt >= 0 {
 		st.Data = st.Data[:f.ErrAt]
-		st.Term = &kernel.InjectedError{What: fmt.Sprintf("file%d read error at %d", i, f.ErrAt)}
+		st.Term = w.srcErr(fmt.Sprintf("file%d read error at %d", i, f.ErrAt))
+		st.ErrOnce = w.s.SrcErrOnce
 	}
 	st.TermWithData = f.WithData
 	st.ChunkMode = f.Chunk
@@ -491,7 +507,8 @@ func (prop) Run(t *testing.T, tape *kernel.Tape, sc kernel.Scenario) *kernel.Res
 			w.payload.Tag = "source"
 			if s.PayloadErrAt >= 0 {
 				w.payload.Data = w.payload.Data[:s.PayloadErrAt]
-				w.payload.Term = &kernel.InjectedError{What: fmt.Sprintf("payload read error at %d", s.PayloadErrAt)}
+				w.payload.Term = w.srcErr(fmt.Sprintf("payload read error at %d", s.PayloadErrAt))
+				w.payload.ErrOnce = s.SrcErrOnce
 			}
 			w.payload.ChunkMode = s.T.Pull
 			w.payload.FixedChunk = s.T.PullFixed
